@@ -460,14 +460,42 @@ class Interp:
         self.assumed = []
         self.steps = 0
         self.funcs = set()
+        self.tstack = []
 
-    def call(self, name, args):
+    def call(self, name, args, tenv=None):
         b = self.prog.bodies.get(name)
         if b is None:
             raise Unknown("no body for %s" % name)
         if not norm(name).startswith(WHITELIST_PREFIX) and not name.startswith(WHITELIST_PREFIX):
             raise Unknown("function %s is not in the whitelist of pure functions" % name)
         self.funcs.add(name)
+        self.tstack.append(tenv or {})
+        try:
+            return self._call_body(name, b, args)
+        finally:
+            self.tstack.pop()
+
+    def _callee_tenv(self, c, cb):
+        """what the callee's type parameters stand for: the pointee parameter of the function under analysis (whose
+        alignment is the partition variable) or a type whose layout does not depend on it"""
+        cur = self.tstack[-1] if self.tstack else {}
+        gens = [g for g in sorted(cb.j.get("generics", []), key=lambda g: g.get("index", 0)) if g.get("kind") != "lifetime"]
+        cargs = getattr(c, "resolved_args", None) or getattr(c, "args", None) or []
+        out = {}
+        if len(gens) != len(cargs):
+            return out
+        for g, a in zip(gens, cargs):
+            if g.get("kind") == "type" and a.get("k") == "ty":
+                out[g["name"]] = self._tyval(a, cur)
+        return out
+
+    @staticmethod
+    def _tyval(a, cur):
+        if "param" in a:
+            return cur.get(a["param"], ("param", a["param"]))
+        return ("ty", a.get("ty"), a.get("align"))
+
+    def _call_body(self, name, b, args):
         env = {}
         for i, a in enumerate(args):
             env[i + 1] = a
@@ -637,9 +665,18 @@ class Interp:
         tg = c.target or ""
         nt = norm(tg)
         if tg in self.prog.bodies and (nt.startswith(WHITELIST_PREFIX) or tg.startswith(WHITELIST_PREFIX)):
-            return self.call(tg, args)
+            return self.call(tg, args, self._callee_tenv(c, self.prog.bodies[tg]))
         if nt == "std::mem::align_of":
-            return W.const(self.align, 64)
+            # of WHAT: the pointee parameter (the partition variable) or a type with a layout of its own
+            targs = [a for a in (getattr(c, "resolved_args", None) or getattr(c, "args", None) or []) if a.get("k") == "ty"]
+            if len(targs) != 1:
+                raise Unknown("align_of without a resolvable type argument")
+            v = self._tyval(targs[0], self.tstack[-1] if self.tstack else {})
+            if v[0] == "param":
+                return W.const(self.align, 64)
+            if v[2] is None:
+                raise Unknown("align_of::<%s>: layout depends on a type parameter" % v[1])
+            return W.const(int(v[2]), 64)
         if nt == "core::num::trailing_zeros":
             if args[0].cst is None:
                 if args[0].bits is None:
